@@ -118,3 +118,11 @@ def lognormal_ref(x: np.ndarray, loc: float, scale: float):
         "mean": float(d.mean()),
         "var": float(d.var()),
     }
+
+
+def closed_moments(dist: str, loc: float, scale: float):
+    """documented closed forms of mean and variance in float64 (expm1 keeps the small-scale digits)"""
+    if dist == "normal":
+        return float(loc), float(scale) ** 2
+    s2 = float(scale) ** 2
+    return math.exp(loc + s2 / 2.0), math.expm1(s2) * math.exp(2.0 * loc + s2)
